@@ -150,7 +150,7 @@ static std::vector<Str> initial_states(int size) {
 }
 
 void run(Ctx &ctx) {
-    Local lc; int depth = ctx.secondary ? 1 : ctx.quick() ? 3 : 4; /* wchar_t depth; char explores deeper */ int size = ctx.secondary ? 0 : ctx.quick() ? 1 : 2;
+    Local lc; int depth = (ctx.secondary ? 1 : ctx.quick() ? 3 : 4) + ctx.bonus; /* wchar_t depth; char explores deeper */ int size = ctx.secondary ? 0 : ctx.quick() ? 1 : 2;
     if (getenv("VERIF_C07_DEPTH")) depth = atoi(getenv("VERIF_C07_DEPTH")) - 1;
     std::vector<Str> all = initial_states(size), mine;
     for (size_t i = 0; i < all.size(); i++) if (ctx.mine(i)) mine.push_back(all[i]);
